@@ -103,6 +103,8 @@ class ElectionRecord(dict):
     def report(self, intr=False):
         "report an action"
         E = self.E
+        if not self.filled:     # count interrupted before the first action: fill the header on demand
+            self._fill()
         report = []
         if E.rule.report(self, report, 'all'):  # allow rule to supply entire report
             return "".join(report)
@@ -190,6 +192,8 @@ class ElectionRecord(dict):
         "dump a list of actions"
 
         E = self.E
+        if not self.filled:     # count interrupted before the first action: fill the header on demand
+            self._fill()
         ecids = self['ecids']
         cdict = self['cdict']
 
@@ -228,6 +232,9 @@ class ElectionRecord(dict):
 
     def json(self):
         "dump election history as a JSON-encoded string"
+
+        if not self.filled:     # count interrupted before the first action: fill the header on demand
+            self._fill()
 
         class ValueEncoder(json_.JSONEncoder):
             "provide JSON encoding for droop arithmetic object"
